@@ -37,6 +37,9 @@ def run(rep, tier, seed, replay):
                 "crate's compiled patterns; non-trivial = built and the partition is a real split (non-empty prefix)")
     exprs = lib.inputs(rep, "C08", tier, seed, 2500, 30000, replay, lits=["a", "b", "ab", "A", "x.y", "..", ".", "é", "c", "1"])
     if replay is None:
+        import gen as _ger
+        exprs += [e for e in _ger.exact_repetition_family() if e not in set(exprs)]
+    if replay is None:
         import gen as _gfc
         exprs += [e for e in _gfc.flag_class_family() if e not in set(exprs)]
     if replay is None:
